@@ -2,6 +2,8 @@ package main
 
 import (
 	"fmt"
+	"go/types"
+	"sort"
 	"strings"
 
 	"golang.org/x/tools/go/ssa"
@@ -18,6 +20,7 @@ func checkC02(w *World, r *Report, tier string) propMeta {
 	c02R4(w, r, "C02.R4")
 	n := c02R5(w, r, "C02.R5")
 	c02R6(w, r)
+	c02R7(w, r, "C02.R7")
 	return propMeta{
 		explanation: fmt.Sprintf("(R1) verify-before-deliver: in the scan loop a row reaches rowBatcher.add only on the true edge of matchRowBytes for the same scanner.Next row, and the delivered map is materializeRow of that same row; (R2) single producer: only Results.deliver sends on rowChan, only rowBatcher.flush calls deliver, only processDataBlock calls add, only markWorkersDone closes rowChan; (R3) each batch handed off once: flush clears the batch before delivering the old slice, deliver performs at most one successful rowChan send per path and exactly one before `return nil`, and counts the batch once per send; (R4) strict prefilter table: nil ⇒ true, nil condition ⇒ true, empty Or ⇒ false, And = all, Or = any, unknown ⇒ false, missing partition/minmax metadata ⇒ false — by abstract interpretation of evaluatePrefilterExpression on constant trees; (R5) the compiled matcher's constants equal the documented ones and, for every small tree (depth ≤ 2) and every truth assignment of its leaves, the row verdict equals the documented And/Or semantics — %d (tree, assignment) cases.", n),
 		notDecided:  "Multiset equality against an independent oracle; the index arithmetic of BlockRowScanner.Next (bounds are decided under C19); that matchRowBytes itself implements the documented search semantics on real JSON (value-level).",
@@ -472,4 +475,73 @@ func allTrue(m map[string]bool) bool {
 		}
 	}
 	return true
+}
+
+// c02R7: readers never write into block-metadata arrays they did not allocate.
+func c02R7(w *World, r *Report, rule string) {
+	r.rule(rule, "stored block lists are read-only to queries: in FilterDataBlocks, the MetaStores' GetMaybeFilesForQuery and the query region, every append to a []DataBlockMetadata and every element store into one targets an array allocated in that function (make / append from nil), never the slice it was handed", 1)
+	q := w.fn("BloomSearchEngine.Query")
+	fns := map[*ssa.Function]bool{}
+	if q != nil {
+		for fn := range w.reachableFuncs(true, q) {
+			fns[fn] = true
+		}
+	}
+	for _, n := range []string{"FilterDataBlocks", "MemoryMetaStore.GetMaybeFilesForQuery", "FileSystemDataStore.GetMaybeFilesForQuery"} {
+		if fn := fnOrUndecided(w, r, rule, n); fn != nil {
+			fns[fn] = true
+			for _, a := range fn.AnonFuncs {
+				fns[a] = true
+			}
+		}
+	}
+	isBlocks := func(t types.Type) bool { return w.typeName(t) == "[]DataBlockMetadata" }
+	count := map[string]int{}
+	var names []string
+	byName := map[string]*ssa.Function{}
+	for fn := range fns {
+		if w.ours(fn) && fn.Blocks != nil {
+			names = append(names, w.name(fn))
+			byName[w.name(fn)] = fn
+		}
+	}
+	sort.Strings(names)
+	n := 0
+	for _, name := range names {
+		fn := byName[name]
+		eachInstr(fn, func(in ssa.Instruction) {
+			var target ssa.Value
+			what := ""
+			switch x := in.(type) {
+			case *ssa.Call:
+				if base, _, ok := appendedElems(x); ok && isBlocks(base.Type()) {
+					target, what = base, "append"
+				} else if b, isB := x.Call.Value.(*ssa.Builtin); isB && b.Name() == "append" && len(x.Call.Args) > 0 && isBlocks(x.Call.Args[0].Type()) {
+					target, what = x.Call.Args[0], "append"
+				}
+			case *ssa.Store:
+				if ia, ok := x.Addr.(*ssa.IndexAddr); ok && isBlocks(ia.X.Type()) {
+					target, what = ia.X, "element store"
+				}
+				if fa, ok := x.Addr.(*ssa.FieldAddr); ok {
+					if ia, ok := fa.X.(*ssa.IndexAddr); ok && isBlocks(ia.X.Type()) {
+						target, what = ia.X, "element field store"
+					}
+				}
+			}
+			if target == nil {
+				return
+			}
+			n++
+			out := map[string]bool{}
+			sliceOrigins(w, target, map[ssa.Value]bool{}, out)
+			delete(out, "fresh")
+			ck := baseName(name) + ":" + what
+			count[ck]++
+			r.check(len(out) == 0, rule, fmt.Sprintf("%s#%d", ck, count[ck]), w.instrPos(in), "writes into an array allocated here", fmt.Sprintf("%s into a []DataBlockMetadata that can share its array with %s: filtering a file's blocks rewrites the block list the MetaStore still holds, so later queries scan some blocks twice and never see others", what, strings.Join(sortedKeys(out), ", ")))
+		})
+	}
+	if n == 0 {
+		r.undecided(rule, "sites", "-", "no write to a []DataBlockMetadata found in the read path (FilterDataBlocks' append expected)")
+	}
 }
